@@ -28,11 +28,11 @@ import (
 func init() {
 	Register(&Rule{
 		ID: "C22", Section: "5 C22",
-		Technique: "counter lockstep: per-path symbolic execution over an affine domain (go/ssa, feasible-path enumeration with phi/nilness pruning, linear facts from guards and io contracts, Gaussian elimination for equality modulo facts), modular callee summaries derived from the callees themselves (fill leaves b.r == 0), who-may-write census of the cursor and counter fields; guard/dominance rules on direct reads, feasible-path evaluation of UnreadByte in the post-direct-read state, slide-copy shape",
+		Technique: "counter lockstep: per-path symbolic execution over an affine domain (go/ssa, feasible-path enumeration with phi/nilness pruning, linear facts from guards and io contracts, Gaussian elimination for equality modulo facts), modular callee summaries derived from the callees themselves (fill leaves b.r == 0), who-may-write census of the cursor and counter fields; guard/dominance rules on direct reads, feasible-path evaluation of UnreadByte in the post-direct-read state, slide-copy shape; dominating-guard + no-intervening-cursor-write rule on every consumption of the pending read error",
 		Meta: core.Meta{
 			Level:       "other",
-			Explanation: "Decides, for every method of bfe_bufio.Reader and Writer and every return of it: on every feasible path to that return (each loop body taken at most twice) the bytes consumed — bytes obtained from the underlying reader (b.rd.Read / WriterTo.WriteTo results) plus the advance of b.r minus the growth of b.w — equal the change of TotalRead, resp. the bytes accepted — bytes handed to the underlying writer (b.wr.Write / ReaderFrom.ReadFrom results) plus the growth of b.n — equal the change of TotalWrite, as affine expressions over SSA values modulo the linear facts of the path. Calls to other methods of the same object use a summary derived from the callee (fields havocked; `fill` provably leaves b.r == 0; the callee's own balance is its own obligation). Also: Reader.reset / Writer.Reset zero cursor and counter together; the cursor and counter fields are written only inside bfe_bufio. Data path (three necessary conditions only): a Read that hands the caller's slice straight to b.rd happens only under b.r == b.w, records lastByte = p[n-1] and invalidates lastRuneSize; in the state such a read leaves behind (b.r == b.w, lastByte >= 0; branch conditions on the entry values of r, w, lastByte are evaluated in it) every path of UnreadByte to a nil return stores byte(lastByte) into the buffer cell the read cursor ends at; every slide of the reader's buffer (w -= r, r = 0) is preceded by an uncapped copy of buf[r:w] to buf[0:]. Not covered: equivalence of the delivered bytes with std bufio beyond these conditions (ReadSlice/ReadLine/Peek/ReadRune data, Writer data path), loops taken more than twice, the saturating decrements of UnreadByte/UnreadRune when TotalRead was externally reset below the unread amount (those branches are assumed away), overflow.",
-			RuleText:    "obligations = each return of each method of Reader/Writer (all feasible paths to it balanced), path-enumeration completeness per method, reset rules, one census obligation per cursor/counter field, each direct read of the underlying reader, each nil return of UnreadByte, each slide",
+			Explanation: "Decides, for every method of bfe_bufio.Reader and Writer and every return of it: on every feasible path to that return (each loop body taken at most twice) the bytes consumed — bytes obtained from the underlying reader (b.rd.Read / WriterTo.WriteTo results) plus the advance of b.r minus the growth of b.w — equal the change of TotalRead, resp. the bytes accepted — bytes handed to the underlying writer (b.wr.Write / ReaderFrom.ReadFrom results) plus the growth of b.n — equal the change of TotalWrite, as affine expressions over SSA values modulo the linear facts of the path. Calls to other methods of the same object use a summary derived from the callee (fields havocked; `fill` provably leaves b.r == 0; the callee's own balance is its own obligation). Also: Reader.reset / Writer.Reset zero cursor and counter together; the cursor and counter fields are written only inside bfe_bufio. Data path (three necessary conditions only): a Read that hands the caller's slice straight to b.rd happens only under b.r == b.w, records lastByte = p[n-1] and invalidates lastRuneSize; in the state such a read leaves behind (b.r == b.w, lastByte >= 0; branch conditions on the entry values of r, w, lastByte are evaluated in it) every path of UnreadByte to a nil return stores byte(lastByte) into the buffer cell the read cursor ends at; every slide of the reader's buffer (w -= r, r = 0) is preceded by an uncapped copy of buf[r:w] to buf[0:]; the pending error of the underlying reader (b.err) is delivered after the buffered bytes: every place of a Reader method that consumes it (a call of readErr, recognised as the method that clears b.err and returns what it held) or clears it (b.err = nil, as WriteTo does for io.EOF) is dominated by a branch edge that establishes b.r == b.w / !(b.r < b.w) / b.w - b.r <= 0 / b.Buffered() == 0 evaluated at that branch, or by `b.r = b.w`, with no write of b.r/b.w (directly or through another Reader method) on any path from there to the place — so a loop that drains the stream cannot stop on the error while bytes read together with it are still buffered; discharged otherwise only for a zero-length request (len(p) == 0) and, as a reviewed exception, for Peek (the bytes stay buffered). Not covered: equivalence of the delivered bytes with std bufio beyond these conditions (ReadSlice/ReadLine/Peek/ReadRune data, Writer data path), loops taken more than twice, the saturating decrements of UnreadByte/UnreadRune when TotalRead was externally reset below the unread amount (those branches are assumed away), overflow.",
+			RuleText:    "obligations = each return of each method of Reader/Writer (all feasible paths to it balanced), path-enumeration completeness per method, reset rules, one census obligation per cursor/counter field, each direct read of the underlying reader, each nil return of UnreadByte, each slide, each consumption/clearing of Reader.err",
 			Assumptions: []string{
 				"io.Reader.Read / io.Writer.Write / copy return 0 <= n <= len(argument); WriteTo/ReadFrom return n >= 0",
 				"0 <= b.r <= b.w <= len(b.buf) and 0 <= b.n <= len(b.buf) hold on entry of every method (bufio's structural invariant)",
@@ -65,6 +65,14 @@ func init() {
 			{Name: "direct-read-forgets-lastbyte", File: "bfe_bufio/bufio.go", Old: "				b.lastByte = int(p[n-1])\n				b.lastRuneSize = -1\n", New: "				b.lastRuneSize = -1\n", Expect: "bypass-state|Reader.Read:direct#1:records-last-byte"},
 			{Name: "direct-read-with-buffered-data", File: "bfe_bufio/bufio.go", Old: "	if b.w == b.r {\n		if b.err != nil {\n			return 0, b.readErr()\n		}\n		if len(p) >= len(b.buf) {", New: "	if b.w >= b.r {\n		if b.err != nil {\n			return 0, b.readErr()\n		}\n		if len(p) >= len(b.buf) {", Expect: "bypass-state|Reader.Read:direct#1:empty-buffer"},
 			{Name: "fill-slide-destination-capped", File: "bfe_bufio/bufio.go", Old: "		copy(b.buf, b.buf[b.r:b.w])\n		b.w -= b.r", New: "		copy(b.buf[:b.r], b.buf[b.r:b.w])\n		b.w -= b.r", Expect: "slide|Reader.fill"},
+			{Name: "writeto-stops-on-error-with-data-buffered", File: "bfe_bufio/bufio.go", Old: "	for b.fill(); b.r < b.w; b.fill() {", New: "	for b.fill(); b.r < b.w && b.err == nil; b.fill() {", Expect: "err-after-data|Reader.WriteTo:consume"},
+			{Name: "read-reports-error-before-buffered-data", File: "bfe_bufio/bufio.go", Old: "	if b.w == b.r {\n		if b.err != nil {\n			return 0, b.readErr()\n		}\n		if len(p) >= len(b.buf) {", New: "	if b.err != nil {\n		return 0, b.readErr()\n	}\n	if b.w == b.r {\n		if len(p) >= len(b.buf) {", Expect: "err-after-data|Reader.Read:consume#2"},
+			{Name: "readbyte-loop-also-entered-on-error", File: "bfe_bufio/bufio.go", Old: "	for b.w == b.r {\n		if b.err != nil {\n			return 0, b.readErr()\n		}\n		b.fill()\n	}\n	c = b.buf[b.r]", New: "	for b.w == b.r || b.err != nil {\n		if b.err != nil {\n			return 0, b.readErr()\n		}\n		b.fill()\n	}\n	c = b.buf[b.r]", Expect: "err-after-data|Reader.ReadByte:consume#1"},
+			{Name: "readrune-error-before-buffered-rune", File: "bfe_bufio/bufio.go", Old: "	if b.r == b.w {\n		return 0, 0, b.readErr()\n	}", New: "	if b.r == b.w || b.err != nil {\n		return 0, 0, b.readErr()\n	}", Expect: "err-after-data|Reader.ReadRune:consume#1"},
+			{Name: "silent-writeto-loop-with-break", File: "bfe_bufio/bufio.go", Old: "	for b.fill(); b.r < b.w; b.fill() {\n		m, err := b.writeBuf(w)", New: "	for {\n		b.fill()\n		if b.r >= b.w {\n			break\n		}\n		m, err := b.writeBuf(w)", Silent: true},
+			{Name: "silent-readrune-empty-test-via-buffered", File: "bfe_bufio/bufio.go", Old: "	if b.r == b.w {\n		return 0, 0, b.readErr()\n	}", New: "	if b.Buffered() == 0 {\n		return 0, 0, b.readErr()\n	}", Silent: true},
+			{Name: "silent-readbyte-error-via-helper", File: "bfe_bufio/bufio.go", Old: "func (b *Reader) ReadByte() (c byte, err error) {\n	b.lastRuneSize = -1\n	for b.w == b.r {\n		if b.err != nil {\n			return 0, b.readErr()\n		}", New: "func (b *Reader) pending() error {\n	return b.readErr()\n}\n\nfunc (b *Reader) ReadByte() (c byte, err error) {\n	b.lastRuneSize = -1\n	for b.w == b.r {\n		if b.err != nil {\n			return 0, b.pending()\n		}", Silent: true},
+			{Name: "helper-consumes-error-called-with-data-buffered", File: "bfe_bufio/bufio.go", Old: "func (b *Reader) ReadByte() (c byte, err error) {\n	b.lastRuneSize = -1\n	for b.w == b.r {\n		if b.err != nil {\n			return 0, b.readErr()\n		}", New: "func (b *Reader) pending() error {\n	return b.readErr()\n}\n\nfunc (b *Reader) ReadByte() (c byte, err error) {\n	b.lastRuneSize = -1\n	if b.err != nil {\n		return 0, b.pending()\n	}\n	for b.w == b.r {\n		if b.err != nil {\n			return 0, b.pending()\n		}", Expect: "err-after-data|Reader.pending:consume#1"},
 			{Name: "silent-unreadbyte-restore-reordered", File: "bfe_bufio/bufio.go", Old: "		b.w = 1\n		b.r = 0\n		b.buf[0] = byte(b.lastByte)\n		b.lastByte = -1\n", New: "		last := byte(b.lastByte)\n		b.r = 0\n		b.w = 1\n		b.buf[b.r] = last\n		b.lastByte = -1\n", Silent: true},
 			{Name: "silent-readslice-counter-first", File: "bfe_bufio/bufio.go", Old: "			b.r = n + i + 1\n\n			b.TotalRead += n + i + 1\n", New: "			consumed := n + i + 1\n			b.TotalRead += consumed\n			b.r = consumed\n", Silent: true},
 			{Name: "silent-reorder-and-rename", File: "bfe_bufio/bufio.go", Old: "	c = b.buf[b.r]\n	b.r++\n	b.lastByte = int(c)\n\n	b.TotalRead += 1\n", New: "	b.TotalRead++\n	next := b.buf[b.r]\n	c = next\n	b.lastByte = int(c)\n	b.r = b.r + 1\n", Silent: true},
@@ -1316,6 +1324,9 @@ func runC22(c *core.Ctx) {
 				}
 			}
 			c22BypassAndUnread(c, readers, F, unread)
+			if errF := fv("err"); errF != nil {
+				c22PendingError(c, readers, c22pendFields{r: F.r, w: F.w, err: errF})
+			}
 		}
 	}
 }
